@@ -585,6 +585,12 @@ var wsUpgrader = websocket.Upgrader{
 }
 
 func wsHandler(w http.ResponseWriter, r *http.Request) {
+	if r.ContentLength != 0 {
+		// the upgrader drops the connection without replying if the
+		// client has sent anything after the request headers
+		http.Error(w, "unexpected request body", http.StatusBadRequest)
+		return
+	}
 	conn, err := wsUpgrader.Upgrade(w, r, nil)
 	if err != nil {
 		log.Printf("Websocket upgrade: %v", err)
